@@ -234,6 +234,9 @@ func faultsFor(doc M) []fault {
 		case "addr", "nodeID":
 			add("not-a-host", "not a host!")
 			add("bad-ip", "300.1.1.1.1:")
+			add("ipv6-literal", "2001:db8::20")
+			add("ipv6-loopback", "::1")
+			add("unresolvable-name", "no-such-host.invalid")
 		case "retransTimeout":
 			add("0s", "0s")
 			add("abc", "abc")
